@@ -137,6 +137,47 @@ pub fn run(prop: &str, seed: u64, tier_thorough: bool, trace_path: Option<&str>,
             }
         }
     }
+    // EVERY input of at most two bytes (65 793 inputs) and a sample of three-byte inputs, in all three header modes:
+    // where the input ends decides what the final flush of the range encoder has to resolve (a carry still
+    // outstanding behind pending 0xFF bytes happens for a few inputs in a thousand)
+    {
+        let mut rng_small = rand::rngs::StdRng::seed_from_u64(seed ^ 0x5a11);
+        let mut inputs: Vec<Vec<u8>> = vec![vec![]];
+        for a in 0..=255u8 {
+            inputs.push(vec![a]);
+            for b in 0..=255u8 {
+                inputs.push(vec![a, b]);
+            }
+        }
+        for _ in 0..(if tier_thorough { 2_000_000 } else { 60_000 }) {
+            inputs.push(vec![rng_small.gen(), rng_small.gen(), rng_small.gen()]);
+        }
+        let mut bad = 0usize;
+        for input in &inputs {
+            for (oname, us, dopt) in [
+                ("marker", lzma_rs::compress::UnpackedSize::WriteToHeader(None), Opt::ReadFromHeader),
+                ("size", lzma_rs::compress::UnpackedSize::WriteToHeader(Some(input.len() as u64)), Opt::ReadFromHeader),
+                ("skip", lzma_rs::compress::UnpackedSize::SkipWritingToHeader, Opt::UseProvided { n: Some(input.len() as u64) }),
+            ] {
+                let mut out = Vec::with_capacity(32);
+                let mut src = &input[..];
+                let r = catch(|| lzma_rs::lzma_compress_with_options(&mut src, &mut out, &lzma_rs::compress::Options { unpacked_size: us }));
+                let ok = matches!(r, Caught::Done(Ok(())));
+                // the independent decoder: the reference decoder of the harness (format rules evaluated on bytes)
+                let e = crate::oracle::expect_lzma(&out, dopt, None);
+                let d1 = api::lzma_bytes(&out, &api::options(dopt, None, false));
+                if !ok || d1.verdict != Verdict::Ok || d1.out != *input || e.v == crate::oracle::Exp::Err || (e.v == crate::oracle::Exp::Ok && e.out != *input) {
+                    bad += 1;
+                    if bad <= 5 {
+                        rep.violation(prop, format!("lzma_compress[{}] on the {}-byte input {}: output {} does not decode back to the input (lzma-rs: {:?} {}; reference decoder: {:?} {})", oname, input.len(), crate::report::hex(input), crate::report::hex(&out), d1.verdict, d1.msg, e.v, e.class),
+                            json!({"kind": "enc", "api": "lzma", "opt": oname, "input_hex": crate::report::hex(input), "seed": seed}));
+                    }
+                }
+            }
+        }
+        rep.add("tiny_inputs_exhaustive", inputs.len() as u64);
+        rep.eval(hash_of(&("tiny-inputs", inputs.len())), true);
+    }
     // inputs longer than the 8 MiB dictionary the .lzma encoder announces: the decoder's window wraps, and the
     // literal right after the wrap takes its context from the last byte of the window
     for (n, oname) in [((8usize << 20) + 4096, "default"), ((8 << 20) + 1, "skip")] {
